@@ -1,10 +1,16 @@
 (* C05 -- autofixed files are replaced atomically, even across crashes and I/O errors.
    Only statements; every proof is `exact <lemma>`.
 
-   Model/FsProto.v   file system = map path -> (bytes, mode); system calls Open (O_WRONLY|O_CREAT|
-                     O_TRUNC), Write, Close, Rename, Chmod, Unlink; the Go program: write_file
-                     (os.WriteFile), save_one (loop body of SaveAutofixChanges), chmod_fix
-                     (checkExecutable), run; prog_ops = its system calls when nothing fails.
+   The model follows SaveAutofixChanges after the three repairs (exclusive creation of
+   the temporary file; mode of the original carried over; temporary file removed when the
+   save fails).  With the exclusive open the former guard "no original file is named
+   <saved file>.pkglint.tmp" is gone: the full statements hold.
+
+   Model/FsProto.v   file system = map path -> (bytes, mode); system calls OpenExcl
+                     (O_WRONLY|O_CREAT|O_EXCL), Write, Close, Chmod, Rename, Unlink (and Open
+                     with O_TRUNC for the refuted variants); the Go program: save_one (loop body
+                     of SaveAutofixChanges), chmod_fix (checkExecutable), run; prog_ops s prog =
+                     its system calls from state s when no call is made to fail.
    Spec/CrashSpec.v  atomic_at init prog cur: every path of `init` exists in `cur` and holds its old
                      content or one of the contents the run saves for it; crash_of ops t: t is a
                      prefix of ops, possibly followed by a partially performed write. *)
@@ -12,85 +18,75 @@ From PV Require Import Lib.Bytes Model.FsProto Spec.CrashSpec
   Proofs.FsProto Proofs.FsProtoFault Proofs.FsProtoVariants.
 Open Scope N_scope.
 
-(* ---- the full statement (any tree) is false of the faithful model ---- *)
-
-Definition C05_crash_atomic_full : Prop :=
-  forall (s : state) (prog : list action) (t : list op),
-    crash_of (prog_ops prog) t -> atomic_at (st_fs s) prog (st_fs (exec t s)).
-
-(* witness: the tree holds both `a` and `a.pkglint.tmp`; saving `a` truncates the latter *)
-Theorem C05_crash_atomic_refuted : ~ C05_crash_atomic_full.
-Proof. exact unguarded_refuted. Qed.
-Print Assumptions C05_crash_atomic_refuted.
-
-Definition C05_no_file_disappears_full : Prop :=
-  forall (s : state) (prog : list action) (t : list op),
-    crash_of (prog_ops prog) t -> no_file_lost (st_fs s) (st_fs (exec t s)).
-
-(* same witness: after the complete run `a.pkglint.tmp` is gone *)
-Theorem C05_no_file_disappears_refuted : ~ C05_no_file_disappears_full.
-Proof. exact unguarded_no_file_disappears_refuted. Qed.
-Print Assumptions C05_no_file_disappears_refuted.
-
-(* ---- with the guard: no original file bears the name <saved file>.pkglint.tmp ---- *)
-
 (* crash: for ALL lists of actions (saves of any files with any contents, mode fixes,
-   saves conditional on the result of the previous save), ALL initial trees, and every
-   crash point -- every prefix of the system calls, also with the next write only
-   partially done -- every original path exists and holds its complete old content or
-   one of the complete new contents.  Leftover *.pkglint.tmp files are allowed. *)
-Theorem C05_crash_atomic_partial : forall (s : state) (prog : list action) (t : list op),
-  tmp_free (st_fs s) prog ->
-  crash_of (prog_ops prog) t ->
+   saves conditional on the result of the previous save), ALL initial trees -- also
+   trees that contain files named *.pkglint.tmp -- and every crash point (every prefix
+   of the system calls, also with the next write only partially done) every original
+   path exists and holds its complete old content or one of the complete new contents. *)
+Theorem C05_crash_atomic : forall (s : state) (prog : list action) (t : list op),
+  crash_of (prog_ops s prog) t ->
   atomic_at (st_fs s) prog (st_fs (exec t s)).
 Proof. exact crash_atomic. Qed.
-Print Assumptions C05_crash_atomic_partial.
+Print Assumptions C05_crash_atomic.
 
-Theorem C05_no_file_disappears_partial : forall (s : state) (prog : list action) (t : list op),
-  tmp_free (st_fs s) prog ->
-  crash_of (prog_ops prog) t ->
+Theorem C05_no_file_disappears : forall (s : state) (prog : list action) (t : list op),
+  crash_of (prog_ops s prog) t ->
   no_file_lost (st_fs s) (st_fs (exec t s)).
 Proof. exact no_file_disappears. Qed.
-Print Assumptions C05_no_file_disappears_partial.
+Print Assumptions C05_no_file_disappears.
 
 (* the operation list of the crash theorem is what the Go-like program really issues when
-   nothing fails, and `exec` of it is the program's final state *)
+   no call is made to fail, and `exec` of it is the program's final state *)
 Theorem C05_run_is_prog_ops : forall (s : state) (prog : list action),
   let w := run prog (init_world s None) in
-  w_st w = exec (prog_ops prog) s /\ map fst (w_trace w) = prog_ops prog.
+  w_st w = exec (prog_ops s prog) s /\ map fst (w_trace w) = prog_ops s prog.
 Proof. exact run_is_prog_ops. Qed.
 Print Assumptions C05_run_is_prog_ops.
 
 (* fault: the k-th system call of the run fails with any errno, a failing write after any
    number of bytes already accepted (short write).  The same old-or-new statement holds
    for the final tree, and if the call was reached at all, stderr carries an ERROR line. *)
-Theorem C05_fault_atomic_partial : forall (s : state) (prog : list action) (k : nat) (fl : fault),
-  tmp_free (st_fs s) prog ->
+Theorem C05_fault_atomic : forall (s : state) (prog : list action) (k : nat) (fl : fault),
   let w := run prog (init_world s (Some (k, fl))) in
   atomic_at (st_fs s) prog (st_fs (w_st w)) /\
   ((k < w_count w)%nat -> w_stderr w <> []).
 Proof. exact fault_atomic. Qed.
-Print Assumptions C05_fault_atomic_partial.
+Print Assumptions C05_fault_atomic.
 
 (* the action during which the call fails leaves the content of every original file as
    it was before that action (the failed file keeps its old content), and the rest of
    the program then runs exactly as a program without any fault: later files are still
    processed *)
-Theorem C05_fault_local_partial : forall (s : state) (pre post : list action) (a : action) (k : nat) (fl : fault),
-  tmp_free (st_fs s) (pre ++ a :: post) ->
+Theorem C05_fault_local : forall (s : state) (pre post : list action) (a : action) (k : nat) (fl : fault),
   let w1 := run pre (init_world s (Some (k, fl))) in
   let w2 := run_action w1 a in
   (w_count w1 <= k < w_count w2)%nat ->
   (forall p, orig (st_fs s) p -> content (st_fs (w_st w2)) p = content (st_fs (w_st w1)) p) /\
   clear_plan (run (pre ++ a :: post) (init_world s (Some (k, fl)))) = run post (clear_plan w2).
 Proof. exact fault_local. Qed.
-Print Assumptions C05_fault_local_partial.
+Print Assumptions C05_fault_local.
+
+(* a save, failed (any fault plan) or not, leaves no temporary file behind: if the
+   temporary name was free before, it is free afterwards *)
+Theorem C05_no_leftover_tmp : forall (f : path) (new : str) (w : world),
+  lookup (tmp_name f) (st_fs (w_st w)) = None ->
+  lookup (tmp_name f) (st_fs (w_st (save_one f new w))) = None.
+Proof. exact failed_save_no_leftover. Qed.
+Print Assumptions C05_no_leftover_tmp.
+
+(* a complete save gives the new file the mode of the file it replaces *)
+Theorem C05_save_preserves_mode : forall (s : state) (f : path) (new : str) (old : file),
+  lookup (tmp_name f) (st_fs s) = None -> lookup f (st_fs s) = Some old ->
+  let s' := exec (save_ops s f new) s in
+  lookup f (st_fs s') = Some (mkfile new (f_mode old)) /\ lookup (tmp_name f) (st_fs s') = None.
+Proof. exact save_preserves_mode. Qed.
+Print Assumptions C05_save_preserves_mode.
 
 (* "Clearing executable bits" is a single chmod: at every crash point the state is the one
    before or the one after it; the file keeps its content and has its old mode or the
    requested mode (mode &^ 0111), never anything else *)
 Theorem C05_chmod_atomic : forall (s : state) (f : path) (mode : N) (t : list op),
-  crash_of (prog_ops [AChmod f mode]) t ->
+  crash_of (prog_ops s [AChmod f mode]) t ->
   (exec t s = s \/ exec t s = fst (step s (Chmod f (N.ldiff mode 73)))) /\
   mode_atomic_at (st_fs s) f (N.ldiff mode 73) (st_fs (exec t s)).
 Proof. exact chmod_atomic. Qed.
@@ -98,11 +94,17 @@ Print Assumptions C05_chmod_atomic.
 
 (* non-vacuity of the crash specification: truncate-and-write in place,
    remove-then-rename and copy-back each have a crash point at which the
-   original file is neither old nor new (same guard as above) *)
+   original file is neither old nor new (even when the temporary name is free) *)
 Theorem C05_variants_refuted :
   ~ crash_atomic_for inplace_ops /\ ~ crash_atomic_for remove_rename_ops /\ ~ crash_atomic_for copyback_ops.
 Proof. exact variants_refuted. Qed.
 Print Assumptions C05_variants_refuted.
+
+(* ... and the protocol before the repair (temporary file opened with O_TRUNC) violates
+   the unguarded statement: tree {a, a.pkglint.tmp}, save a, crash after the open *)
+Theorem C05_trunc_tmp_refuted : ~ trunc_tmp_crash_atomic.
+Proof. exact trunc_tmp_refuted. Qed.
+Print Assumptions C05_trunc_tmp_refuted.
 
 (* the boolean checker that the harness applies to snapshots of real, killed runs
    (first_bad / atomic_okb, extracted) implies the specification *)
@@ -111,43 +113,42 @@ Theorem C05_atomic_okb_sound : forall init prog cur,
 Proof. exact atomic_okb_sound. Qed.
 Print Assumptions C05_atomic_okb_sound.
 
-(* ---- the hypotheses are satisfiable, the conclusions are not trivial ---- *)
+(* ---- the conclusions are not trivial ---- *)
 
 Definition ex_mk : path := [77; 107].          (* "Mk" *)
 Definition ex_pl : path := [80; 76].           (* "PL" *)
 Definition ex_tree : state :=
-  mkstate [(ex_mk, mkfile [111; 108; 100] 493); (ex_pl, mkfile [98; 10; 97; 10] 420)] [] 18.
+  mkstate [(ex_mk, mkfile [111; 108; 100] 493); (ex_pl, mkfile [98; 10; 97; 10] 384)] [] 18.
 Definition ex_prog : list action :=
   [AChmod ex_mk 493; ASave ex_mk [110; 101; 119]; ASave ex_pl [97; 10; 98; 10];
    AIfSaved false ex_pl [98; 10; 97; 10]; ASave ex_mk [110; 101; 119; 50]].
 
-Example C05_guard_holds : tmp_freeb (st_fs ex_tree) ex_prog = true.
-Proof. vm_compute. reflexivity. Qed.
-
-(* nothing fails: 13 system calls, both files new, the temporary files are gone *)
+(* nothing fails: 1 + 3*5 system calls, both files new, modes kept (0644 after the
+   mode fix, 0600), no temporary file *)
 Example C05_run_example :
   let w := run ex_prog (init_world ex_tree None) in
-  length (prog_ops ex_prog) = 13%nat /\
-  content (st_fs (w_st w)) ex_mk = Some [110; 101; 119; 50] /\
-  content (st_fs (w_st w)) ex_pl = Some [97; 10; 98; 10] /\
+  length (prog_ops ex_tree ex_prog) = 16%nat /\
+  lookup ex_mk (st_fs (w_st w)) = Some (mkfile [110; 101; 119; 50] 420) /\
+  lookup ex_pl (st_fs (w_st w)) = Some (mkfile [97; 10; 98; 10] 384) /\
   lookup (tmp_name ex_pl) (st_fs (w_st w)) = None /\ w_stderr w = [].
 Proof. vm_compute. repeat split; reflexivity. Qed.
 
-(* the write of PL's save (system call 6) accepts 2 bytes and then fails with ENOSPC:
-   an ERROR line for PL.pkglint.tmp, the fallback save (AIfSaved false) runs, Mk is
-   still saved afterwards; the partial temporary file is overwritten by the fallback *)
+(* the write of PL's save (system call 7) accepts 2 bytes and then fails with ENOSPC:
+   close, ERROR line, unlink; the fallback save (AIfSaved false) runs, Mk is still
+   saved afterwards *)
 Example C05_fault_example :
-  let w := run ex_prog (init_world ex_tree (Some (6%nat, mkfault 2 ENOSPC))) in
+  let w := run ex_prog (init_world ex_tree (Some (7%nat, mkfault 2 ENOSPC))) in
   w_stderr w = [(CannotWrite, tmp_name ex_pl)] /\
   content (st_fs (w_st w)) ex_pl = Some [98; 10; 97; 10] /\
   content (st_fs (w_st w)) ex_mk = Some [110; 101; 119; 50] /\
-  w_count w = 16%nat.
+  lookup (tmp_name ex_pl) (st_fs (w_st w)) = None.
 Proof. vm_compute. repeat split; reflexivity. Qed.
 
-(* a fault in the last save leaves the short-written temporary file behind, the
-   original keeps the content of the earlier save *)
-Example C05_fault_leftover :
-  let w := run ex_prog (init_world ex_tree (Some (10%nat, mkfault 2 EIO))) in
-  content (st_fs (w_st w)) (tmp_name ex_mk) = Some [110; 101] /\
-  content (st_fs (w_st w)) ex_mk = Some [110; 101; 119].
+(* a tree that contains PL.pkglint.tmp: the save of PL is refused with an ERROR line,
+   both files keep their content *)
+Definition ex_tree2 : state :=
+  mkstate [(ex_pl, mkfile [98; 10; 97; 10] 420); (tmp_name ex_pl, mkfile [120] 420)] [] 18.
+Example C05_taken_example :
+  let w := run [ASave ex_pl [97; 10; 98; 10]] (init_world ex_tree2 None) in
+  w_st w = ex_tree2 /\ w_stderr w = [(CannotWrite, tmp_name ex_pl)] /\ w_saved w = false.
 Proof. vm_compute. repeat split; reflexivity. Qed.
